@@ -34,3 +34,25 @@ Definition rr_write_imp_pinned (c : cur) (nameb commonb rdatab : list byte) : cu
   let end_ := cpos c3 in
   let c4 := cwrite (cseek c3 len_position) (be_enc 2 (end_ - len_position - 2)) in
   cseek_end c4.
+
+(* ---- a fixed-capacity writer (Cursor<&mut [u8]>): write_all fails once the data does not fit; the error is propagated by `?` ---- *)
+Definition cwrite_cap (cap : N) (c : outcome cur) (bs : list byte) : outcome cur :=
+  match c with
+  | Ok c => if cpos c + len bs <=? cap then Ok (cwrite c bs) else Err FailedToWrite
+  | e => e
+  end.
+Definition cseek_o (c : outcome cur) (p : N) : outcome cur := match c with Ok c => Ok (cseek c p) | e => e end.
+Definition rr_write_imp_cap (cap : N) (c : cur) (nameb commonb rdatab : list byte) : outcome cur :=
+  let c1 := cwrite_cap cap (cwrite_cap cap (Ok c) nameb) commonb in
+  match c1 with
+  | Ok c1' =>
+    let len_position := cpos c1' in
+    let c3 := cwrite_cap cap (cwrite_cap cap c1 [x00; x00]) rdatab in
+    match c3 with
+    | Ok c3' =>
+      let end_ := cpos c3' in
+      cseek_o (cwrite_cap cap (cseek_o c3 len_position) (be_enc 2 (end_ - len_position - 2))) end_
+    | e => e
+    end
+  | e => e
+  end.
